@@ -828,10 +828,17 @@ Fixpoint all_digits (s : string) : bool :=
   | String c r => (Nat.leb 48 (Ascii.nat_of_ascii c) && Nat.leb (Ascii.nat_of_ascii c) 57) && all_digits r
   end.
 Definition is_digits (s : string) : bool := match s with EmptyString => false | _ => all_digits s end.
-(* the database form does not store item_number: it is rebuilt as the number of positional ("0", "1", ...) children *)
+(* int(name) of a positional name *)
+Fixpoint digits_value (acc : nat) (s : string) : nat :=
+  match s with
+  | EmptyString => acc
+  | String c r => digits_value (10 * acc + (Ascii.nat_of_ascii c - 48)) r
+  end.
+(* the database form does not store item_number: since acffd7c it is rebuilt as (highest positional name + 1), default 0,
+   so that append never overwrites an item (be6bafa counted the positional children) *)
 Definition db_nitems (ob : obj) : nat :=
   match okind ob with
-  | KColl => List.length (filter (fun kv : string * value => is_digits (fst kv)) (oattrs ob))
+  | KColl => fold_left (fun m kv => if is_digits (fst kv) then Nat.max m (S (digits_value 0 (fst kv))) else m) (oattrs ob) 0
   | _ => onitems ob
   end.
 
